@@ -171,7 +171,8 @@ def main():
             r['kind'] += ':vacuous'
             r['vacuous'] = 1
         else:
-            exact = c['cfg'].get('lin') == 'runonce' and not c['spec']['coupled'] and not c['cfg'].get('approx')
+            exact = c['cfg'].get('lin') == 'runonce' and not c['spec']['coupled'] and not c['cfg'].get('approx') \
+                and not c['cfg'].get('approx_model')
             slack = 0.0
             if not exact:
                 # both runs met the iterative solvers' absolute tolerance; their solutions may differ by twice the
@@ -189,7 +190,9 @@ def main():
                 good, why = same(va, vb, exact, slack)
                 if not good and r['ok']:
                     r.update(ok=False, sig='relevance:%s:%s%s' % (key, c['cfg'].get('lin'),
-                                                                ':approx_totals' if c['cfg'].get('approx') else ''),
+                                                                ':approx_totals' if c['cfg'].get('approx') else
+                                                                (':model-approx_totals' + (':coloring' if c['cfg'].get('coloring') else ''))
+                                                                if c['cfg'].get('approx_model') else ''),
                              msg='%s differ with relevance on / off (%s): %s | cfg=%s' % (
                                  what, 'exact' if exact else 'tol 1e-9', why, c['cfg']))
             r['res'] = [a['D'], a['A']]
